@@ -296,6 +296,9 @@ def run(db, tier):
               "declared locals are no longer recorded for release")
     # ---------------- R-ANTISCRATCH: the ANM hook answers for exactly the games whose built-in table has the instruction
     _anm_game_sets(db, rep)
+    # ---------------- R-POOL-DECLARED: every register of a general-purpose pool is a register the game has (built-in
+    # register table of that game declares it, with the type of the pool it sits in)
+    _pool_declared(db, rep)
     return rep
 
 
@@ -431,3 +434,120 @@ def _anm_game_sets(db, rep):
                   "ins_%d forbids scratch registers in exactly the games that have it (%s)" % (op, ", ".join(short(present))),
                   "ins_%d exists in the built-in ANM tables of %s but the hook forbids scratch use only for %s: in %s a script using it silently gets scratch registers" % (
                       op, short(present), short(answered), short(present - answered)))
+
+
+def _pats(p):
+    return p["ps"] if p.get("k") == "Or" else [p]
+
+
+def _var_entries(db, table_id, games):
+    """(game index, reg, sigil or None) for every register entry of a built-in signature table"""
+    d = db.statics.get(table_id)
+    out = []
+    if d is None:
+        return out
+    for x in hir_walk(d["hir"]):
+        if x.get("k") == "Tup" and len(x.get("es", [])) == 3 and x["es"][0].get("k") == "Path" and x["es"][0].get("p") in games:
+            idn, third = x["es"][1], x["es"][2]
+            neg = False
+            if idn.get("k") == "Unary" and idn.get("op") == "-":
+                neg, idn = True, idn["e"]
+            if idn.get("k") != "Lit" or not re.match(r"^\d+", idn.get("v", "")):
+                continue
+            reg = int(re.match(r"^(\d+)", idn["v"]).group(1)) * (-1 if neg else 1)
+            if third.get("k") == "Call" and (third.get("f") or "").endswith("Option::Some") and third["a"] and third["a"][0].get("k") == "Lit" \
+                    and third["a"][0]["v"] in ('"$"', '"%"'):
+                out.append((games.index(x["es"][0]["p"]), reg, third["a"][0]["v"].strip('"')))
+            elif third.get("k") == "Path" and (third.get("p") or "").endswith("Option::None") and abs(reg) >= 10000:
+                out.append((games.index(x["es"][0]["p"]), reg, None))
+    return out
+
+
+def _pool_regs(arm_body):
+    """{ScalarType variant -> [reg]} from an `enum_map!{ ScalarType::X => vec![RegId(n), ..], .. }` expression"""
+    out = {}
+    for m in hir_walk(arm_body):
+        if m.get("k") == "Match" and any(q.get("p", "").startswith("value::ScalarType::") for a in m["arms"] for q in _pats(a["p"])):
+            for a in m["arms"]:
+                regs = []
+                for x in hir_walk(a["b"]):
+                    if x.get("k") == "Call" and x.get("f") == "resolve::RegId" and x.get("a"):
+                        v = x["a"][0]
+                        neg = False
+                        if v.get("k") == "Unary" and v.get("op") == "-":
+                            neg, v = True, v["e"]
+                        if v.get("k") == "Lit" and re.match(r"^\d+", v.get("v", "")):
+                            regs.append(int(re.match(r"^(\d+)", v["v"]).group(1)) * (-1 if neg else 1))
+                        else:
+                            raise Broken("a general-purpose register is not written as a literal")
+                for q in _pats(a["p"]):
+                    if q.get("p", "").startswith("value::ScalarType::"):
+                        out.setdefault(q["p"].rsplit("::", 1)[-1], []).extend(regs)
+            break
+    return out
+
+
+def _pool_declared(db, rep):
+    games = _game_order(db)
+    SIG = {"Int": "$", "Float": "%"}
+    # ---- ECL (EoSD..StB): pool per game vs the table core_signatures(game) selects
+    sel = db.fn("core_mapfiles::ecl::core_signatures")
+    table_of = {}
+    for n in hir_walk(sel.hir):
+        if n.get("k") == "Match":
+            for a in n["arms"]:
+                if a["b"].get("k") == "Path" and (a["b"].get("p") or "").startswith("core_mapfiles::ecl::"):
+                    for q in _pats(a["p"]):
+                        table_of[q.get("p")] = a["b"]["p"]
+            break
+    f = db.fn("<formats::ecl::ecl_06::OldeEclHooks as llir::LanguageHooks>::general_use_regs")
+    rep.fn(f); rep.fn(sel)
+    n_regs = 0
+    outer = next((n for n in hir_walk(f.hir) if n.get("k") == "Match" and n["s"].get("k") == "Field" and n["s"].get("n") == "game"), None)
+    if outer is None:
+        raise Broken("OldeEclHooks::general_use_regs no longer dispatches on self.game")
+    for a in outer["arms"]:
+        gs = [q.get("p") for q in _pats(a["p"]) if q.get("p") in games]
+        if not gs:
+            continue
+        pool = _pool_regs(a["b"])
+        for g in gs:
+            tid = table_of.get(g)
+            ents = _var_entries(db, tid, games) if tid else []
+            gi = games.index(g)
+            for ty, regs in sorted(pool.items()):
+                for r in regs:
+                    n_regs += 1
+                    cur = None
+                    for at, reg, sg in sorted(ents, key=lambda e: e[0]):
+                        if reg == r and at <= gi:
+                            cur = (sg,)
+                    key = "ecl|%s|%s|%d" % (g.rsplit("::", 1)[-1], ty, r)
+                    loc = "%s:%d" % (f.file, a["ln"])
+                    if cur is None or cur[0] is None:
+                        rep.bad("R-POOL-DECLARED", key, loc, "register %d is in the %s scratch pool of %s but the built-in register table of that game (%s) has no such register: a local bound to it is stored in a variable the game does not have" % (
+                            r, ty, g.rsplit("::", 1)[-1], tid))
+                    elif cur[0] != SIG.get(ty):
+                        rep.bad("R-POOL-DECLARED", key, loc, "register %d is in the %s scratch pool of %s but the built-in register table declares it as '%s'" % (r, ty, g.rsplit("::", 1)[-1], cur[0]))
+                    else:
+                        rep.ok("R-POOL-DECLARED", key, loc, "register %d (%s) is declared '%s' by %s" % (r, ty, cur[0], tid))
+    # ---- ANM: pool per version vs ANM_VAR (declared for some game, and never with another type)
+    fa = db.fn("<formats::anm::AnmHooks07 as llir::LanguageHooks>::general_use_regs")
+    rep.fn(fa)
+    ents = _var_entries(db, "core_mapfiles::anm::ANM_VAR", games)
+    for m in hir_walk(fa.hir):
+        if m.get("k") == "Match" and m["s"].get("k") == "Field" and m["s"].get("n") == "version":
+            for a in m["arms"]:
+                if a["b"].get("never"):
+                    continue
+                vs = "/".join(q.get("p", "?").rsplit("::", 1)[-1] for q in _pats(a["p"]))
+                for ty, regs in sorted(_pool_regs(a["b"]).items()):
+                    for r in regs:
+                        n_regs += 1
+                        sigs = set(sg for _, reg, sg in ents if reg == r and sg)
+                        key = "anm|%s|%s|%d" % (vs, ty, r)
+                        loc = "%s:%d" % (fa.file, a["ln"])
+                        rep.check(sigs == {SIG.get(ty)}, "R-POOL-DECLARED", key, loc, "register %d (%s) is declared '%s' by ANM_VAR" % (r, ty, SIG.get(ty)),
+                                  "register %d is in the %s scratch pool of ANM %s but ANM_VAR declares it as %s" % (r, ty, vs, sorted(sigs) or "nothing"))
+            break
+    rep.floor("R-POOL-DECLARED general-purpose registers compared with the built-in register tables", n_regs, 80)
